@@ -30,7 +30,11 @@ BAD_HEADERS = {
     "none_value": [(b"n", None)],
     # what the server strips before sending is part of the name it sends: a pseudo header / an empty name hidden behind whitespace
     "sp_pseudo": [(b" :status", b"200")], "tab_pseudo": [(b"\t:path", b"/x")], "blank_name": [(b"  ", b"v")],
+    # a field name is a token (RFC 9110 5.1): anything else cannot be framed - h11 refuses it, on HTTP/2 it is a connection error at the peer
+    "space_name": [(b"bad name", b"v")], "colon_name": [(b"x:y", b"v")], "nonascii_name": [(b"caf\xe9", b"v")], "ctl_name": [(b"a\x01b", b"v")],
+    "sep_name": [(b"x(y)", b"v")],
 }
+TOKEN = frozenset(b"!#$%&'*+-.^_`|~0123456789ABCDEFGHIJKLMNOPQRSTUVWXYZabcdefghijklmnopqrstuvwxyz")
 CTL = (0, 10, 13)
 
 
@@ -74,6 +78,8 @@ def ws_alphabet() -> List[Tuple[str, dict]]:
         ("accept:hdr_sp_pseudo", {"type": "websocket.accept", "headers": [(b" :status", b"200")]}),
         ("accept:hdr_sp_proto", {"type": "websocket.accept", "headers": [(b" sec-websocket-protocol", b"chat")]}),
         ("accept:hdr_blank", {"type": "websocket.accept", "headers": [(b" ", b"v")]}),
+        ("accept:hdr_space", {"type": "websocket.accept", "headers": [(b"bad name", b"v")]}),
+        ("accept:hdr_nonascii", {"type": "websocket.accept", "headers": [(b"caf\xe9", b"v")]}),
         ("accept:hdr_crlf", {"type": "websocket.accept", "headers": [(b"x-extra", b"1\r\nx: y")]}),
         ("send:text", {"type": "websocket.send", "text": "hi"}),
         ("send:bytes", {"type": "websocket.send", "bytes": b"\x00\x01"}),
@@ -102,6 +108,8 @@ def headers_ok(hs) -> bool:
             return False
         sent = bytes(n).strip()          # the name as the server would put it on the wire
         if len(sent) == 0 or sent[:1] == b":":
+            return False
+        if any(c not in TOKEN for c in sent):
             return False
         if any(c in CTL for c in bytes(n)) or any(c in CTL for c in bytes(v)):
             return False
